@@ -391,6 +391,41 @@ where
     (fs, outcome)
 }
 
+/// Imported credentials whose user handle stands in a byte relation to other fields of the same
+/// record (equal to the credential id, a prefix of it, the id plus a byte, the id reversed, the RP
+/// ID as bytes, empty): an assertion returns exactly the stored user handle, with an allow list
+/// and without one.
+fn imported_one(rel: u8, with_list: bool) -> Vec<(String, String)> {
+    let id = cred_id(1);
+    let handle: Vec<u8> = match rel {
+        0 => id.clone(),
+        1 => id[..8].to_vec(),
+        2 => [id.clone(), vec![0]].concat(),
+        3 => id.iter().rev().cloned().collect(),
+        4 => b"example.com".to_vec(),
+        5 => vec![],
+        _ => vec![7, 7],
+    };
+    let mut p = seeded(&Seed { n: 1, rp: "example.com".into(), handle: Some(handle.clone()), counter: Some(1), hmac: None });
+    p.credential_id = id.clone().into();
+    let store = Shared::new(RefStore::with(vec![p]));
+    let mut client = Client::new(Authenticator::new(Aaguid::new_empty(), store, ScriptedUv::consenting(Log::new())));
+    let url = url::Url::parse("https://example.com").unwrap();
+    let opts = request_options(Auth { allow: with_list.then(|| vec![id.clone()]), ..Default::default() });
+    match par::catch(|| block_on(client.authenticate(&url, opts, DefaultClientData))) {
+        Err(p) => vec![("panic".into(), p)],
+        Ok(Err(e)) => vec![("assertion-fails".into(), format!("assertion with an imported credential (user handle relation {rel}) failed: {e:?}"))],
+        Ok(Ok(a)) => {
+            let got = a.response.user_handle.as_ref().map(|u| u.to_vec());
+            if got != Some(handle.clone()) {
+                vec![("assertion-user-handle-value".into(), format!("stored user handle {} (relation {rel} to the credential id {}), the assertion returns {:?}", hex(&handle), hex(&id), got.map(|g| hex(&g))))]
+            } else {
+                vec![]
+            }
+        }
+    }
+}
+
 pub fn run(ctx: &Ctx) -> Result<Run, String> {
     let cs = cases();
     let stats = par::sweep_cases(&cs, ctx.threads, |c, st| {
@@ -399,10 +434,19 @@ pub fn run(ctx: &Ctx) -> Result<Run, String> {
         st.sample(|| json!(c));
         st.findings_from(fs);
     });
+    let mut stats = stats;
+    for rel in 0..7u8 {
+        for with_list in [false, true] {
+            stats.case(&("imported", rel, with_list), true, "imported-credential");
+            for (k, d) in imported_one(rel, with_list) {
+                stats.finding(Finding::new(format!("level=client/kind={k}"), d, json!({"imported": {"rel": rel, "with_list": with_list}})));
+            }
+        }
+    }
     let n = cs.len() as u64;
     let mut run = Run::from_stats(
         "model_checking",
-        "complete product store capability(3) x residentKey{no selection, absent, discouraged, preferred, required} x requireResidentKey(2) x authenticatorAttachment{absent, platform, cross-platform} x credProps{absent,false,true} x authenticator configuration {no hmac-secret, UV-only, with non-UV secret, with evaluation at creation} x prf input {absent, empty, eval, pre-hashed only, both} x counters on/off, the store handed over bare / inside Arc<Mutex> / Arc<RwLock> / Mutex (the shipped lock wrappers), on a fresh authenticator and on one that earlier answered getInfo / registered while the store had another capability, from the web origin and from an Android app origin, and with every dotted host-like string constant of the client's sources (and www.<it>, x<it>) as relying party where the client accepts it, through Client::register + Client::authenticate, plus capability(3) x rk(2) through Authenticator::make_credential; each configuration runs a registration and two assertions with the new credential (default requirement with a verified user; verification discouraged with a present but unverified user); every configuration is non-trivial (it reaches save_credential or the required-rk refusal)",
+        "complete product store capability(3) x residentKey{no selection, absent, discouraged, preferred, required} x requireResidentKey(2) x authenticatorAttachment{absent, platform, cross-platform} x credProps{absent,false,true} x authenticator configuration {no hmac-secret, UV-only, with non-UV secret, with evaluation at creation} x prf input {absent, empty, eval, pre-hashed only, both} x counters on/off, the store handed over bare / inside Arc<Mutex> / Arc<RwLock> / Mutex (the shipped lock wrappers), on a fresh authenticator and on one that earlier answered getInfo / registered while the store had another capability, from the web origin and from an Android app origin, and with every dotted host-like string constant of the client's sources (and www.<it>, x<it>) as relying party where the client accepts it, through Client::register + Client::authenticate, plus capability(3) x rk(2) through Authenticator::make_credential; imported credentials whose user handle equals / prefixes / extends / reverses the credential id, equals the RP ID bytes or is empty return exactly that handle; each configuration runs a registration and two assertions with the new credential (default requirement with a verified user; verification discouraged with a present but unverified user); every configuration is non-trivial (it reaches save_credential or the required-rk refusal)",
         true,
         stats,
     );
@@ -412,6 +456,9 @@ pub fn run(ctx: &Ctx) -> Result<Run, String> {
 }
 
 pub fn replay(_ctx: &Ctx, case: &Value) -> Result<Vec<Finding>, String> {
+    if let Some(i) = case.get("imported") {
+        return Ok(imported_one(i["rel"].as_u64().unwrap_or(0) as u8, i["with_list"].as_bool().unwrap_or(false)).into_iter().map(|(k, d)| Finding::new(format!("level=client/kind={k}"), d, case.clone())).collect());
+    }
     let c: Case = serde_json::from_value(case.clone()).map_err(|e| format!("bad C11 case: {e}"))?;
     Ok(eval(&c).0)
 }
